@@ -60,8 +60,9 @@ def parse_list(toks, i, close):
 
 
 class Conv:
-    def __init__(self):
+    def __init__(self, variant_kinds=()):
         self.structs, self.enums, self.order = svx_schema.read_schema()
+        self.variant_kinds = set(variant_kinds)   # enums whose node name carries the variant: "WhiteSpace_Space"
 
     def conv(self, v, ty):
         """-> forest (list of trees); tree = ('L', off, len, line) | ('N', kind, [children])"""
@@ -107,7 +108,8 @@ class Conv:
             assert v[0] == "call", (v, name)
             for vn, vt in self.enums[name]["variants"]:
                 if vn == v[1]:
-                    return [("N", name, self.conv(v[2][0], vt))]
+                    nm = name + "_" + vn if name in self.variant_kinds else name
+                    return [("N", nm, self.conv(v[2][0], vt))]
             raise ValueError("unknown variant %s::%s" % (name, v[1]))
         raise ValueError("unknown type " + name)
 
